@@ -77,7 +77,14 @@ class Scenario:
                 await fut
                 self.log.add("func_end", e=self.ident(x))
                 return x
-            node = s.map_async(fn, parallelism=cfg["parallelism"])
+            def plain_fn(x):
+                # a plain callable that checks its argument before it hands back an awaitable: it may raise at the call
+                if getattr(self, "reject_next", False):
+                    self.reject_next = False
+                    self.log.add("func_reject", e=self.ident(x))
+                    raise aprobe.ConsumerError("function rejects element %s" % (self.ident(x),))
+                return fn(x)
+            node = s.map_async(plain_fn if cfg.get("reject") else fn, parallelism=cfg["parallelism"])
         elif k in ("direct", "tree"):
             node = s
         elif k == "map":
@@ -224,6 +231,10 @@ class Scenario:
                 self.nfail = getattr(self, "nfail", 0) + 1
                 log.add("func_fail", e=x)
                 loop.do(f.set_exception, aprobe.ConsumerError("function of element %s failed" % x))
+        elif c == "j":
+            # the next call of the function raises at once
+            self.nrej = getattr(self, "nrej", 0) + 1
+            self.reject_next = True
         elif c == "R":
             # life-cycle calls travel upstream from any node (Stream.start / Stream.stop): on nodes that have no life cycle of
             # their own, and while everything is running anyway, they change nothing
@@ -296,6 +307,8 @@ class Scenario:
             return sum(1 for _, f in self.tasks if not f.done()) > 1
         if c == "g":
             return bool(self.cfg.get("faults")) and getattr(self, "nfail", 0) < 3 and any(not f.done() for _, f in self.tasks)
+        if c == "j":
+            return bool(self.cfg.get("reject")) and getattr(self, "nrej", 0) < 2 and not getattr(self, "reject_next", False)
         if c == "s":
             return (loop.live_ready() > 0 or loop.due() > 0) and self.idle_steps < 6
         if c == "t":
@@ -417,6 +430,8 @@ def alphabet(cfg):
         al += ["t"]          # single callbacks instead of whole iterations: emissions / completions fall between two callbacks
     if cfg.get("faults") and k == "map_async":
         al += ["g"]
+        if cfg.get("reject"):
+            al += ["j"]
     elif cfg.get("faults"):
         al += ["x"]
     return al
@@ -451,7 +466,7 @@ def enumerate_schedules(cfg, depth, limit, rng):
 
 def random_schedules(cfg, count, maxlen, rng):
     al = alphabet(cfg)
-    w = {"e": 3, "s": 4, "d": 2, "D": 1, "a": 2, "w": 1, "f": 2, "F": 1, "x": 1, "g": 2, "t": 6, "X": 1, "Y": 2}
+    w = {"e": 3, "s": 4, "d": 2, "D": 1, "a": 2, "w": 1, "f": 2, "F": 1, "x": 1, "g": 2, "j": 2, "t": 6, "X": 1, "Y": 2}
     out = []
     for _ in range(count):
         n = rng.randint(4, maxlen)
